@@ -11,7 +11,7 @@ for x in extract/cmd/*/; do
   N=$(python3 -c "print('$n'.capitalize())")
   ./bin/x_$n -repo "${VERIF_REPO:-/repo}" -json work/facts_$n.json -lean lean/NoKVModel/Generated/Facts_$N.lean
 done
-(cd lean && lake build)
+(cd lean && lake build && lake build $(python3 -c "import json,glob;print(' '.join(sorted({json.load(open(f))['driver'] for f in glob.glob('../props/*.json')})))"))
 for h in harness/cmd/*/; do
   n=$(basename "$h")
   (cd harness && go build -tags verif -o ../bin/h_$n ./cmd/$n)
